@@ -1,5 +1,4 @@
-"""xtuml/load.py + xtuml/meta.py -> lean/Gen/Sharing.lean  (C18, and the phase order used by C03)
-
+"""xtuml/load.py + xtuml/meta.py -> lean/Gen/Sharing.lean:
 Read with `ast` only (the repository is never imported).  Four tables:
 
   phaseOrder         the `self.populate_*` calls of `ModelLoader.populate`, in source order
